@@ -271,6 +271,43 @@ def run(repo, out_dir):
                      f'Definition {prop}_setter_patches : bool := {v}.')
         info[prop + '.setter'] = v
 
+    # pickling: Chemical.__reduce__ -> (unpickle_chemical, (get_chemical_data(self),))
+    red = find_method(src, 'Chemical', '__reduce__')
+    rb = strip_docstring(src, red.body)
+    if len(rb) != 1 or ' '.join(src.seg(rb[0]).split()) != 'return unpickle_chemical, (get_chemical_data(self),)':
+        src.err(red, 'Chemical.__reduce__ is outside the subset')
+    gd = [x for x in src.tree.body if isinstance(x, ast.FunctionDef) and x.name == 'get_chemical_data']
+    up = [x for x in src.tree.body if isinstance(x, ast.FunctionDef) and x.name == 'unpickle_chemical']
+    if len(gd) != 1 or len(up) != 1:
+        raise TranslatorError(f'{REL}: get_chemical_data / unpickle_chemical not found')
+    ret = [x for x in ast.walk(gd[0]) if isinstance(x, ast.Return)]
+    if len(ret) != 1 or not isinstance(ret[0].value, ast.DictComp) or len(ret[0].value.generators) != 1 \
+            or src.seg(ret[0].value.generators[0].iter).replace(' ', '') != 'chemical.__slots__':
+        src.err(gd[0], 'get_chemical_data is outside the subset ({slot: value for slot in chemical.__slots__ [if ...]})')
+    gen = ret[0].value.generators[0]
+    if not gen.ifs:
+        all_slots = True
+    elif len(gen.ifs) == 1 and ' '.join(src.seg(gen.ifs[0]).split()) == f'{src.seg(gen.target)} not in _energy_handles':
+        all_slots = False           # the H / S / H_excess / S_excess functors are left out of the pickle
+    else:
+        src.err(gen.ifs[0], 'filter of get_chemical_data is outside the subset')
+    ub = strip_docstring(src, up[0].body)
+    rebuilds = [x for x in ast.walk(up[0]) if isinstance(x, ast.Call) and isinstance(x.func, ast.Attribute)
+                and x.func.attr in ('reset_free_energies', '_init_energies')]
+    core = [x for x in ub if not (is_call(x, 'chemical', 'reset_free_energies'))]
+    want = ['chemical = object.__new__(Chemical)', 'setfield = setattr',
+            'for field, value in chemical_data.items(): setfield(chemical, field, value)', 'return chemical']
+    if [' '.join(src.seg(x).split()) for x in core] != want or len(rebuilds) != len(ub) - len(core) or len(rebuilds) > 1:
+        src.err(up[0], 'unpickle_chemical is outside the subset (set every pickled slot [, chemical.reset_free_energies()], return chemical)')
+    if rebuilds and ub.index([x for x in ub if is_call(x, 'chemical', 'reset_free_energies')][0]) != len(ub) - 2:
+        src.err(up[0], 'unpickle_chemical must rebuild after all slots are set')
+    if not all_slots and not rebuilds:
+        src.err(up[0], 'the functors are neither pickled nor rebuilt: an unpickled chemical would have no H / S')
+    lines.append(f'(* {REL}:{gd[0].lineno} get_chemical_data ({"all slots" if all_slots else "without the energy functors"}), '
+                 f':{up[0].lineno} unpickle_chemical ({"rebuilds the functors" if rebuilds else "keeps the pickled functor objects"}) *)\n'
+                 f'Definition unpickle_rebuilds_functors : bool := {"true" if rebuilds else "false"}.')
+    info['unpickle_chemical'] = 'rebuilds' if rebuilds else 'keeps pickled functors'
+
     out = header('tr/C07_rewire.py', [src], ['call sites of _init_energies / reset_free_energies in Chemical'])
     out += 'From Coq Require Import List Bool.\nFrom V Require Import C07.Model.\nImport ListNotations.\n\n' + '\n\n'.join(lines) + '\n'
     import vf
